@@ -4,6 +4,13 @@ import numpy as np
 from harness import common as C
 
 THEOREMS = 'Properties/C17.v'
+CLAIM = dict(
+    text='Index maps: Coq theorems for every d and every q>=1 (both compositions are the identity, lengths, '
+         'rejection of non-powers of two) about the model Model/GridInd.v; the model is tied to grid.py by exact, '
+         'exhaustive correspondence over every multi-index with q*d<=8 (12 thorough) plus a malformed stream.',
+    note='Trusted: Coq kernel, vm_compute for case evaluation, the hand-written model (validated by the '
+         'correspondence), numpy ravel/unravel semantics.',
+    technique='Coq proof (induction over digits) + exhaustive model/implementation correspondence')
 TRUSTED = ['Coq 8.16.1 kernel + vm_compute (case evaluation only)',
            'hand-written model Model/GridInd.v tied to grid.py by exhaustive exact correspondence',
            'np.unravel_index / np.ravel_multi_index semantics (order=F) as modelled by bits_le / unbits_le']
